@@ -645,7 +645,7 @@ func runAll(w *workload, objs []*fsobj.Obj, faults []fault, order uint64, budget
 	}
 	nw := workers()
 	for at := 0; at < len(faults); at += nw {
-		if at >= 2*nw && budget.Exceeded() {
+		if at >= nw && budget.Exceeded() {
 			skipped = len(faults) - at
 			break
 		}
